@@ -2,6 +2,7 @@ package props
 
 import (
 	"bytes"
+	"context"
 	"encoding/json"
 	"errors"
 	"fmt"
@@ -30,9 +31,11 @@ func (e *nilErr) Error() string { return e.msg }
 var typedNilErr *nilErr
 
 var (
-	errVal   = errors.New("e")
-	ptrVal   = &custom{7}
-	typedNil *custom
+	errVal      = errors.New("e")
+	errCanceled = fmt.Errorf("load user: %w", context.Canceled)
+	errDeadline = fmt.Errorf("load user: %w", context.DeadlineExceeded)
+	ptrVal      = &custom{7}
+	typedNil    *custom
 )
 
 func panicValue(i int) any {
@@ -57,6 +60,10 @@ func panicValue(i int) any {
 		return io.EOF
 	case 9:
 		return typedNilErr
+	case 10:
+		return errCanceled // errors a handler typically gives up with: they are panic values like any other
+	case 11:
+		return errDeadline
 	}
 	return nil
 }
@@ -481,16 +488,16 @@ func init() {
 		rc.Assume = append(rc.Assume,
 			"also: WithRecovery(f) followed by WithRecovery(nil) (the last option wins: no recovery), Group.New(..., WithRecovery(nil)) below a group with recovery, and the built-in reporting options WithLogRecovery / WithSLogRecovery / WithWriteRecovery (contained, and the report starts with the panic value exactly as fmt prints it - one string value contains format verbs)",
 			"instances: Router and Group with no recovery / WithRecovery(f) / WithStatusRecovery(500); routers made by Group.New inheriting and overriding the option; routers Added with and without their own option - 10 kinds, one long-lived instance per sequence",
-			"events: 3 normal requests (one of them issues a second request from inside its handler, so two requests are alive at once) and 18 panic sites (handlers for GET/POST/HEAD/params, each middleware layer before and after next, 404, 405, OPTIONS, TRACE, OPTIONS *, group not-found, group Use middleware) x panic values {string, error, int, runtime.Error, struct, pointer, typed nil, http.ErrAbortHandler, io.EOF, a typed-nil error whose Error method faults}",
+			"events: 3 normal requests (one of them issues a second request from inside its handler, so two requests are alive at once) and 18 panic sites (handlers for GET/POST/HEAD/params, each middleware layer before and after next, 404, 405, OPTIONS, TRACE, OPTIONS *, group not-found, group Use middleware) x panic values {string, error, int, runtime.Error, struct, pointer, typed nil, http.ErrAbortHandler, io.EOF, a typed-nil error whose Error method faults, errors wrapping context.Canceled and context.DeadlineExceeded}",
 			"all sequences of length <= 2 with all values (quick) and length 3 with two values; thorough: length 3 with all values and length 4 with one (the time budget may end the thorough tier early: the evidence says how many work items were explored)",
 			"with recovery: nothing escapes, the function in force gets the identical value exactly once; every later request is served normally with its own parameters at handler entry and exit; without: the identical value reaches the caller")
 		type plan struct {
 			l    int
 			vals []int
 		}
-		plans := []plan{{2, []int{0, 1, 2, 3, 4, 5, 6, 7, 8, 9}}, {3, []int{0, 3}}}
+		plans := []plan{{2, []int{0, 1, 2, 3, 4, 5, 6, 7, 8, 9, 10, 11}}, {3, []int{0, 3}}}
 		if !rc.Quick() {
-			plans = []plan{{3, []int{0, 1, 2, 3, 4, 5, 6, 7, 8, 9}}, {4, []int{0}}}
+			plans = []plan{{3, []int{0, 1, 2, 3, 4, 5, 6, 7, 8, 9, 10, 11}}, {4, []int{0}}}
 		}
 		var items []c16Item
 		for _, p := range plans {
